@@ -1,2 +1,89 @@
 //! Kani harnesses for unit tsig (see /verif/notes/AGENT-BRIEF.md for naming: full_*, bnd_*, cex_*).
+//!
+//! Loop-free, full-domain checks of the pure arithmetic pieces of TSIG that are
+//! reachable through the crate's public API: the 48-bit `TimeSigned` conversions
+//! (src/rr/rdata/tsig.rs) against the REAL `std::time` types, and the output
+//! sizes of the two algorithms (against the real hmac/sha crates).  They back
+//! the Verus units `tsig_rdata` / `tsig`, whose `SystemTime`, `Duration` and
+//! `Hmac::output_size` are trusted stand-ins.  (`check_mac_size` and
+//! `check_time` are private to `message::tsig`; they are covered by Verus only.)
 #![allow(unused_imports, dead_code)]
+
+use std::time::{Duration, SystemTime};
+
+use crate::message::tsig::Algorithm;
+use crate::rr::rdata::TimeSigned;
+
+const U48_LIMIT: u64 = 1 << 48;
+
+/// `try_from_unix_time` accepts exactly the values below 2^48, stores them
+/// big-endian, and `to_unix_time` is its inverse - for every u64.
+#[kani::proof]
+pub(crate) fn full_time_signed_unix_roundtrip() {
+    let seconds: u64 = kani::any();
+    match TimeSigned::try_from_unix_time(seconds) {
+        Ok(ts) => {
+            assert!(seconds < U48_LIMIT);
+            assert!(ts.to_unix_time() == seconds);
+            let a = ts.as_array();
+            let v = ((a[0] as u64) << 40) | ((a[1] as u64) << 32) | ((a[2] as u64) << 24)
+                | ((a[3] as u64) << 16) | ((a[4] as u64) << 8) | (a[5] as u64);
+            assert!(v == seconds);
+            assert!(ts.as_slice().len() == 6);
+        }
+        Err(_) => assert!(seconds >= U48_LIMIT),
+    }
+}
+
+/// Every six octets are a TimeSigned below 2^48 and convert back to themselves.
+#[kani::proof]
+pub(crate) fn full_time_signed_octets_roundtrip() {
+    let octets: [u8; 6] = kani::any();
+    let ts = TimeSigned::from(octets);
+    let secs = ts.to_unix_time();
+    assert!(secs < U48_LIMIT);
+    let back = TimeSigned::try_from_unix_time(secs).unwrap();
+    assert!(<[u8; 6]>::from(back) == octets);
+}
+
+/// `TryFrom<SystemTime>`: never panics; for a time `secs`.`nanos` after the epoch
+/// it is Ok exactly when `secs` < 2^48 and then holds `secs`; and the way back
+/// (`TryFrom<TimeSigned> for SystemTime`) never panics and returns epoch + secs.
+#[kani::proof]
+pub(crate) fn full_time_signed_from_system_time() {
+    let secs: u64 = kani::any();
+    let nanos: u32 = kani::any();
+    kani::assume(nanos < 1_000_000_000);
+    if let Some(t) = SystemTime::UNIX_EPOCH.checked_add(Duration::new(secs, nanos)) {
+        match TimeSigned::try_from(t) {
+            Ok(ts) => {
+                assert!(secs < U48_LIMIT);
+                assert!(ts.to_unix_time() == secs);
+                if let Ok(back) = SystemTime::try_from(ts) {
+                    assert!(back.duration_since(SystemTime::UNIX_EPOCH).unwrap().as_secs() == secs);
+                }
+            }
+            Err(_) => assert!(secs >= U48_LIMIT),
+        }
+    }
+}
+
+/// A time before the epoch is rejected (no panic, no wrap-around).
+#[kani::proof]
+pub(crate) fn full_time_signed_before_epoch() {
+    let secs: u64 = kani::any();
+    let nanos: u32 = kani::any();
+    kani::assume(nanos < 1_000_000_000);
+    kani::assume(secs > 0 || nanos > 0);
+    if let Some(t) = SystemTime::UNIX_EPOCH.checked_sub(Duration::new(secs, nanos)) {
+        assert!(TimeSigned::try_from(t).is_err());
+    }
+}
+
+/// RFC 8945 section 6 / FIPS 180-4: HMAC-SHA1 gives 20 octets, HMAC-SHA256 32
+/// (assumption A2 of prelude/tsig_hmac.rs, checked against the real crates).
+#[kani::proof]
+pub(crate) fn full_algorithm_output_sizes() {
+    assert!(Algorithm::HmacSha1.output_size() == 20);
+    assert!(Algorithm::HmacSha256.output_size() == 32);
+}
